@@ -594,6 +594,18 @@ def install(E):
         x, y = X(), X('y')
         return z3.ForAll([x, y], hp.rtc(E)[x, y] == hp.rtc(Ep)[y, x], patterns=[hp.rtc(E)[x, y], hp.rtc(Ep)[y, x]])
 
+    def eg_cut_post_phi(c, path):
+        f, k, phi, Ep, E, R = eg_view(c, path)
+        s = X('s')
+        return z3.ForAll([s], z3.Implies(R[s], sat(phi)[s]), patterns=[R[s]])
+
+    def eg_cut_post_succ(c, path):
+        # every node of the result has a K-successor in the result (the predecessor in G' that `justified` names, or
+        # the one the loop invariant T_sound gives for the start nodes)
+        f, k, phi, Ep, E, R = eg_view(c, path)
+        s, d = X('s'), X('d')
+        return z3.ForAll([s], z3.Implies(R[s], z3.Exists([d], z3.And(edge(c.h0, c.kripke.t, s, d), R[d]))), patterns=[R[s]])
+
     def eg_cut_postfix(c, path):
         # the antecedent of the greatest-fixpoint principle at Z := result (same syntax)
         f, k, phi, Ep, E, R = eg_view(c, path)
@@ -639,7 +651,7 @@ def install(E):
         s = X('s')
         return z3.ForAll([s], z3.Implies(sat(f)[s], R[s]), patterns=[sat(f)[s]])
 
-    EG_CUTS = [eg_cut_converse_edges, eg_cut_converse_instance, eg_cut_converse_closure, eg_cut_postfix,
+    EG_CUTS = [eg_cut_converse_edges, eg_cut_converse_instance, eg_cut_converse_closure, eg_cut_post_phi, eg_cut_post_succ, eg_cut_postfix,
                eg_cut_gfp_instance, eg_cut_sound, eg_cut_cycle_nodes, eg_cut_closed, eg_cut_induction_instance, eg_cut_complete]
 
     reg(Contract(
@@ -650,9 +662,9 @@ def install(E):
         hints={'call': {'compute_SCCs': eg_scc_hint, 'DiGraph.get_reachable_set_from': eg_reach_hint},
                'schemas': ('gfp_principle', 'rtc_induction', 'rtc_converse'),
                'heavy_requires': ('kripke_wf', 'Ephi_def', 'finite_structure_cycle_lemma', 'memo_inv'),
-               'slice_more_main': r'^loop1:(T_sound|T_complete|subgraph_|components_)',
+               'slice_more_main': r'^(loop1:(T_sound|T_complete|subgraph_|components_)|frame:unchanged:)',
                # facts about the constructed graph, the components and the accumulator do not need the semantics axioms
-               'slice_heavy': r':(subgraph_|components_|T_sound|T_complete|acc_is_not|memo_inv:preserved|since_entry|:cut[13789]$|:cut10$)',
+               'slice_heavy': r':(subgraph_|components_|T_sound|T_complete|acc_is_not|memo_inv:preserved|since_entry|:cut([134589]|1[012])$)',
                'cuts': {'ensures:result_is_sat': EG_CUTS, 'ensures:memo_inv': EG_CUTS,
                         'loop1:T_sound:preserved': [eg_cut_component_has_cycle]}}, owner='C01'))
 
